@@ -44,11 +44,15 @@ type vfC14Server struct {
 	// cutAt, if not negative, makes the server announce the full length and
 	// drop the connection after that many bytes of the body.
 	cutAt int
-	srv   *httptest.Server
+	// cutLeft is the number of further requests that are cut that way; the
+	// requests after them are served completely (a transient fault).  A
+	// negative value cuts every request.
+	cutLeft int
+	srv     *httptest.Server
 }
 
 func vfNewC14Server() (s *vfC14Server) {
-	s = &vfC14Server{cutAt: -1}
+	s = &vfC14Server{cutAt: -1, cutLeft: -1}
 	s.srv = httptest.NewServer(http.HandlerFunc(func(w http.ResponseWriter, r *http.Request) {
 		if strings.HasPrefix(r.URL.Path, "/gone") {
 			// a source that does not deliver, after a moment
@@ -59,6 +63,12 @@ func vfNewC14Server() (s *vfC14Server) {
 		}
 		s.mu.Lock()
 		b, cut := s.body, s.cutAt
+		if cut >= 0 && s.cutLeft == 0 {
+			// the fault has passed
+			cut = -1
+		} else if cut >= 0 && s.cutLeft > 0 {
+			s.cutLeft--
+		}
 		s.mu.Unlock()
 		if cut >= 0 && cut < len(b) {
 			hj, ok := w.(http.Hijacker)
@@ -154,29 +164,50 @@ func TestVFC14FilterList(t *testing.T) {
 			}
 			// an interrupted download: the announced length is not delivered
 			cut := -1
+			// duration of the fault: the number of successive requests that
+			// break (1, 2), or all of them (-1); a source that breaks once and
+			// then delivers is what a client that repeats a request meets
+			faulty := -1
 			if i > 0 && len(body) > 40 && body != prevBody && rapid.IntRange(0, 3).Draw(t, fmt.Sprintf("r%d_interrupted", i)) == 0 {
 				cut = rapid.SampledFrom([]int{30, len(body) / 2, len(body) - 1, len(body) - 20}).Draw(t, fmt.Sprintf("r%d_cut", i))
+				faulty = rapid.SampledFrom([]int{1, 1, 2, -1}).Draw(t, fmt.Sprintf("r%d_faulty_requests", i))
 			}
 			srv.mu.Lock()
 			srv.body = body
 			srv.cutAt = cut
+			srv.cutLeft = faulty
 			srv.mu.Unlock()
 			if cut >= 0 {
-				// a failed refresh must leave the complete previous version
+				// a refresh that meets an interrupted download must leave the
+				// complete previous version, or (if it asks again and the
+				// source delivers by then) the complete new one
 				before, _ := os.ReadFile(path)
+				newForm := strings.SplitN(body, "\n", 2)[1]
 				cp := vfkit.CheckSave(t, "interrupted filter refresh", w, fdir, name, func() error {
 					_, _, _ = d.tryRefreshFilters(true, true, true)
 
 					return nil
 				}, false)
 				after, _ := os.ReadFile(path)
-				if string(after) != string(before) {
-					t.Fatalf("a download cut after %d of %d bytes changed the stored list: %d -> %d bytes", cut, len(body), len(before), len(after))
+				switch {
+				case string(after) == string(before):
+					// the complete previous version
+				case faulty > 0 && string(after) == newForm:
+					// the complete new version, fetched by a later request
+					versions[vfkit.Sum(after)] = true
+					prevBody = body
+				default:
+					t.Fatalf("a download cut after %d of %d bytes (%d faulty request(s), -1 = all) left %d bytes at the path, "+
+						"which is neither the complete previous version (%d bytes) nor the complete new one (%d bytes, %d rules); it holds %d lines",
+						cut, len(body), faulty, len(after), len(before), len(newForm), n, strings.Count(string(after), "\n"))
 				}
 				vfC14.Eval()
 				vfC14.ClassN("crash_points", cp)
 				vfC14.Class("filterlist:interrupted_download")
-				vfC14.Nontrivial(fmt.Sprintf("filterlist|cut|%d|%d|pos%d", cut, len(body), i))
+				if faulty > 0 {
+					vfC14.Class("filterlist:transient_fault")
+				}
+				vfC14.Nontrivial(fmt.Sprintf("filterlist|cut|%d|%d|pos%d|faulty%d", cut, len(body), i, faulty))
 
 				continue
 			}
